@@ -43,7 +43,7 @@ ARMv6-M (Thumb-1): the three BigInt<384> routines of bigint.s are at the end of 
 here: the Thumb-1 multiplication / squaring / Montgomery routines of armv6_m/multiply.s (3.6k–5.6k straight-line instructions each, 21k in
 total; model `Impl/Thumb1.lean`, judge only).
 
-Proofs: `JediVerif/Proofs/A64Proofs{,Mul,Sqr,Mont,FpMul,FpSqr}.lean`, `JediVerif/Proofs/Thumb1Proofs.lean`.
+Proofs: `JediVerif/Proofs/A64Proofs{,Mul,Sqr,Mont,FpMulParts,FpMul,FpSqrParts,FpSqr}.lean`, `JediVerif/Proofs/Thumb1Proofs.lean`.
 -/
 import JediVerif.Proofs.A64ProofsFpMul
 import JediVerif.Proofs.A64ProofsFpSqr
